@@ -109,6 +109,7 @@ type machine struct {
 	lastFsState int
 	cleanSeq    int // requests before this index precede the latest gotelemetry clean
 	killsOn     bool
+	uplUnusable bool
 	faultsOn    bool
 	sawKill     bool
 	reportMaker map[string]*simrt.Task // week -> task that created local/<week>.json
@@ -257,6 +258,11 @@ func scenarioMachine(c *hlib.RunCtx) *hlib.Violation {
 		s.TraceCap = 300000
 	}
 	s.PermuteMaps = true
+	// The machine's local time zone: what time.Now() carries in every process.
+	if z := t.Biased(4, 2, 3); z > 0 {
+		s.Zone = []*time.Location{nil, time.FixedZone("UTC-8", -8*3600), time.FixedZone("UTC+14", 14*3600), time.FixedZone("UTC-11:30", -(11*3600 + 1800))}[z]
+		s.Probe("machine-in-local-zone")
+	}
 	c.Sim = s
 	simrt.Attach(s)
 	defer simrt.Detach()
@@ -299,6 +305,14 @@ func scenarioMachine(c *hlib.RunCtx) *hlib.Violation {
 	modeChanges := prop == "C02" || prop == "C19" || family == "modes"
 	m.killsOn = prop == "C08" && family != "nokill"
 	m.faultsOn = family == "faults"
+	if prop == "C08" && !m.killsOn && t.Bool(1, 8) {
+		// The upload directory cannot be created (a plain file has its name):
+		// nothing can be recorded as uploaded. Delivery is then not demanded,
+		// but without crashes no week may be acknowledged more than once.
+		os.WriteFile(m.upl, []byte("not a directory"), 0666)
+		m.uplUnusable = true
+		s.Probe("upload-dir-unusable")
+	}
 	userCmds := prop == "C19"
 	// initial mode
 	initial := "on"
